@@ -50,6 +50,8 @@ pub struct Utxo {
     pub hash: [u8; 32],
     /// not reported in the start states: the explorer reports it with the `PutUtxo` operation
     pub late: bool,
+    /// spent by pending transaction 2 (the shielding transaction)
+    pub p2: bool,
 }
 
 /// Which blocks make up the current chain: universe blocks F..=base_upto, then `dynb`.
@@ -389,11 +391,14 @@ impl Env {
         let taddr = |w: &Wallet, id| *w.db.get_last_generated_address_matching(id, UnifiedAddressRequest::AllAvailableKeys).expect("address lookup").expect("default address").transparent().expect("transparent receiver");
         let (taddr_a, taddr_b) = (taddr(&w, w.acct_a), taddr(&w, w.acct_b));
         let utxos = vec![
-            Utxo { label: "t80", owner: Owner::A, value: 80_000, height: uni::F + 3, hash: [0x80; 32], late: false },
-            Utxo { label: "t7", owner: Owner::A, value: 7_000, height: uni::SHORT_TIP, hash: [0x07; 32], late: false },
-            Utxo { label: "tb", owner: Owner::B, value: 50_000, height: uni::F + 3, hash: [0xb0; 32], late: false },
+            Utxo { label: "t80", owner: Owner::A, value: 80_000, height: uni::F + 3, hash: [0x80; 32], late: false, p2: false },
+            Utxo { label: "t7", owner: Owner::A, value: 7_000, height: uni::SHORT_TIP, hash: [0x07; 32], late: false, p2: false },
+            Utxo { label: "tb", owner: Owner::B, value: 50_000, height: uni::F + 3, hash: [0xb0; 32], late: false, p2: false },
             // reported late (PutUtxo); pending transaction 2 spends it
-            Utxo { label: "t60", owner: Owner::A, value: 60_000, height: uni::F + 3, hash: [0x60; 32], late: true },
+            Utxo { label: "t60", owner: Owner::A, value: 60_000, height: uni::F + 3, hash: [0x60; 32], late: true, p2: true },
+            // a recent coin, shielded by pending transaction 2 together with the old coin t60: the
+            // note that shielding produces is aged by the NEWEST shielded coin (ConfirmationsPolicy docs)
+            Utxo { label: "t9n", owner: Owner::A, value: 90_000, height: uni::T0 - 2, hash: [0x90; 32], late: false, p2: true },
         ];
         let mut env = Env { u, pend: vec![], addr_sapling, addr_unified, addr_transparent, addr_tex, utxos, taddr_a, taddr_b, starts: vec![] };
         let base = ChainDesc { base_upto: uni::T0, dynb: vec![] };
@@ -512,11 +517,11 @@ fn build_pending_shield(env: &Env, w: &mut Wallet, expect_target: u32) -> Result
     use zcash_client_backend::fees::zip317::SingleOutputChangeStrategy;
     use zcash_client_backend::fees::DustOutputPolicy;
     let u = &env.u;
-    let late: Vec<usize> = (0..env.utxos.len()).filter(|i| env.utxos[*i].late).collect();
-    for i in &late {
+    let late: Vec<usize> = (0..env.utxos.len()).filter(|i| env.utxos[*i].p2).collect();
+    for i in late.iter().filter(|i| env.utxos[**i].late) {
         env.put_utxo(w, *i)?;
     }
-    let others: Vec<OutputRef> = (0..env.utxos.len()).filter(|i| !env.utxos[*i].late && env.utxos[*i].owner == Owner::A).map(|i| env.note_ref(NoteKey::T(i))).collect();
+    let others: Vec<OutputRef> = (0..env.utxos.len()).filter(|i| !env.utxos[*i].p2 && env.utxos[*i].owner == Owner::A).map(|i| env.note_ref(NoteKey::T(i))).collect();
     w.db.lock_outputs(&others, OWNER_Z, BlockHeight::from_u32(expect_target + 1000)).expect("scratch lock of the other coins");
     let acct = w.acct_a;
     type Db = zcash_client_sqlite::WalletDb<rusqlite::Connection, zcash_protocol::local_consensus::LocalNetwork, zcash_client_sqlite::util::testing::FixedClock, rand_chacha::ChaChaRng>;
@@ -529,13 +534,14 @@ fn build_pending_shield(env: &Env, w: &mut Wallet, expect_target: u32) -> Result
     let mut spent = vec![];
     for t in step.transparent_inputs() {
         let i = env.utxos.iter().position(|x| x.hash == *t.outpoint().hash()).ok_or_else(|| format!("setup: shielding selected {:?}, not a coin of the ground truth", t.outpoint()))?;
-        if !env.utxos[i].late {
+        if !env.utxos[i].p2 {
             return Err(format!("setup: shielding selected coin {}, which is locked by another owner (or belongs to another account)", env.utxos[i].label));
         }
         spent.push(i);
     }
+    spent.sort();
     if spent != late {
-        return Err(format!("setup: shielding selected coins {spent:?}, expected the late coins {late:?}"));
+        return Err(format!("setup: shielding selected coins {spent:?}, expected the unlocked coins {late:?}"));
     }
     let txids = create_proposed_transactions::<_, _, Infallible, _, Infallible, Infallible>(
         w.db.db_mut(),
